@@ -10,7 +10,7 @@ Not decided: which shapes geometrically enclose a tag (can_fit's float test)."""
 import re
 
 from ..common import guards, short, where
-from ..exprs import closure_of, format_parts, mentions, strip
+from ..exprs import mentions_deep, subst_closure, closure_of, format_parts, mentions, strip
 from ..grammar import GrammarError, load_parser_module
 from ..charset import Unknown
 from ..mirlib import Expr, Program, expr_str
@@ -115,6 +115,22 @@ def run(run):
         is_find = lambda z: z[0] == "call" and z[1].endswith("str::<impl str>::find")
         sb_calls = [(bid, t) for bid, t in prog.calls(cf) if re.search(r"StringBuffer as core::convert::From<&str>>::from$", Program.callee_name(t))]
         parse_calls = [(bid, t) for bid, t in prog.calls(cf) if Program.callee_name(t).endswith("parser::parse_css_legend")]
+        # the parse may sit in a closure handed to a combinator on the find result:
+        # `input.find(..).and_then(|loc| parse_css_legend(&input[loc..]).ok().map(|css| (loc, css)))`
+        closure_parse = None
+        if not parse_calls:
+            for q in prog.closures_of(cf):
+                for cbid, ct in prog.calls(q):
+                    if Program.callee_name(ct).endswith("parser::parse_css_legend"):
+                        for bid, t in prog.calls(cf):
+                            for a in t["args"]:
+                                cl_, caps_ = closure_of(strip(ex.operand(a)))
+                                if cl_ == q and re.search(r"Option::<T>::(and_then|map)$", Program.callee_name(t)):
+                                    recv = ex.operand(t["args"][0])
+                                    payload = ("field", recv, ("@Some", "0"))
+                                    closure_parse = (bid, t, subst_closure(Expr(prog, q).operand(ct["args"][0]), caps_, (payload,)))
+            if closure_parse:
+                parse_calls = [(closure_parse[0], closure_parse[1])]
         add_calls = [(bid, t) for bid, t in prog.calls(cf) if Program.callee_name(t).endswith("CellBuffer::add_css_styles")]
         cut, whole = [], []
         for bid, t in sb_calls:
@@ -132,19 +148,19 @@ def run(run):
                 len(cut), len(whole), len(sb_calls)))
         # the cut branch is taken exactly when parse_css_legend returned Ok, and its entries are added
         if len(parse_calls) == 1 and len(add_calls) == 1:
-            pa = strip(ex.operand(parse_calls[0][1]["args"][0]))
+            pa = strip(closure_parse[2]) if closure_parse else strip(ex.operand(parse_calls[0][1]["args"][0]))
             if pa[0] == "call" and "Index" in pa[1] and str(strip(pa[2][1])[1]).endswith("RangeFrom") and mentions(pa, is_find):
                 run.ok("C16.L2", "legend parser receives input[legend_start..]", where(parse_calls[0][1]))
             else:
                 run.bad("C16.L2", "legend-parse-input", where(parse_calls[0][1]), "parse_css_legend receives %s" % expr_str(pa)[:100])
             aa = ex.operand(add_calls[0][1]["args"][1])
-            if mentions(aa, lambda z: z[0] == "call" and z[1].endswith("parser::parse_css_legend")):
+            if mentions_deep(prog, aa, lambda z: z[0] == "call" and z[1].endswith("parser::parse_css_legend")):
                 run.ok("C16.L2", "parsed entries become the css styles", where(add_calls[0][1]))
             else:
                 run.bad("C16.L2", "legend-entries-dropped", where(add_calls[0][1]), "add_css_styles does not receive the parse result")
             if cut:
                 gs = guards(prog, cf, cut[0][0])
-                on_ok = any(mentions(c, lambda z: z[0] == "call" and z[1].endswith("parser::parse_css_legend")) for c, tk, sw in gs)
+                on_ok = any(mentions_deep(prog, c, lambda z: z[0] == "call" and z[1].endswith("parser::parse_css_legend")) for c, tk, sw in gs)
                 if on_ok:
                     run.ok("C16.L2", "the cut is control-dependent on the legend parse result", where(cut[0][1]))
                 else:
